@@ -107,3 +107,9 @@ Proof. repeat split; reflexivity. Qed.
 From SymfcG Require Import SkelBasis SkelMat SkelPerm.
 Theorem c01_module_skeletons_in_force : SkelBasis_as_recorded = true /\ SkelMat_as_recorded = true /\ SkelPerm_as_recorded = true.
 Proof. repeat split; reflexivity. Qed.
+
+(** The Symfc facade (the entry point through which every returned force constant and basis set of this property is obtained) is the
+    recorded source: whole-function and skeleton match, regenerated on every run. *)
+From SymfcG Require Import ShapesApi SkelApi.
+Theorem c01_facade_in_force : ShapesApi_as_recorded = true /\ SkelApi_as_recorded = true.
+Proof. repeat split; reflexivity. Qed.
